@@ -29,7 +29,7 @@ RULE = ("every combination of idle_timeout in {None, 4}, socket_timeout in {None
 ASSUMPTIONS = ["virtual time; commands are delivered in one segment (MSS 1460) so that 'arrival of the command line' is one event",
                "mapping of configured values to channel/direction as documented: idle_timeout = control reads, socket_timeout = "
                "everything else"]
-REQUIRED_MONITORS = ["wait_future_425", "chatty_survives", "ledger_after_release", "blackbox_bounds", "late_connect"]
+REQUIRED_MONITORS = ["wait_future_425", "chatty_survives", "ledger_after_release", "blackbox_bounds", "late_connect", "linger_bound"]
 ANCHOR_FUNCTIONS = ['common.py:_with_timeout.<locals>.decorator.<locals>.wrapper', 'server.py:ConnectionConditions.__call__.<locals>.wrapper']
 EXHAUSTIVE = {"quick": False, "thorough": True}
 
@@ -166,6 +166,14 @@ async def execute(net, hyg, plan):
                             viol.append({"key": "not-released:control-read-blackbox",
                                          "msg": f"{where}: last control bytes arrived at {last - 1000:.4f}, idle_timeout {cfg['idle']}: "
                                                 f"closed at {tr.close_called_at and round(tr.close_called_at - 1000, 4)}"})
+            # whatever the server gave up must not stay in the peer's hands: with socket_timeout configured a closed
+            # stream whose unsent bytes the peer never reads is torn down within that time (judged while the peer is
+            # still there, silent)
+            mon["linger_bound"] = mon.get("linger_bound", 0) + 1
+            for leak in w.leaks():
+                if leak.startswith("lingering-transport"):
+                    chan = "control" if "(port 2121)" in leak else "data"
+                    viol.append({"key": f"socket-held-after-release:{chan}", "msg": f"{where}: {leak}"})
             d.finish_peers()
         elif kind == "noconnect":
             s = Session(net, 2121)
